@@ -2,14 +2,14 @@
    run_seq w h prefix seq : the prefix is fed through AnsiTok.ansi_step (state set-up; the generators keep the clamped
      control functions out of it), then the sequence; its LAST character is dispatched through the cost model
      (Cost.csi_final_c / csi_sp_c) when the parser is in a CSI state, every other character costs one tick.
-     -> cls iters ticks alloc rows_before rows cells_before cells bh lh cx cy maxrow hash tw th     (cls 0 action 1 error value)
+     -> cls iters ticks alloc rows_before rows cells_before cells bh lh cx cy maxrow hash tw th  threaded_alloc scr   (cls 0 action 1 error value)
         | -1 site | -2
    hash = sum over allocated cells (y, x) of ((y * 131 + x + 1) * (code + 1)) mod 2^31-1  (harness kind `seq`).
    run_hex s   : parse_hex_macro_sequence -> ok iters macro_length max_repeat
    run_glyphs h n : glyphs_from_u8_data on n zero bytes -> iterations
    run_raster rest : bytes requested by sixel raster attributes *)
 From Coq Require Import ZArith NArith List Bool.
-From IE Require Import Model.TermCore Model.AnsiTok Model.Cost.
+From IE Require Import Model.TermCore Model.AnsiTok Model.Cost Model.Alloc.
 From IE Require Model.Font.
 Import ListNotations.
 Local Open Scope Z_scope.
@@ -38,23 +38,41 @@ Definition last_step (m : amach) (ch : Z) : outcome * cost :=
   match st (ps m) with
   | SCsi is_start => csi_final_c (tm m) (ps m) is_start ch
   | SEndCsi 32 => csi_sp_c (tm m) (ps m) ch
+  | SEndCsi 36 => csi_dollar_c (tm m) (ps m) ch                      (* DECFRA DECERA DECSERA: ticks = clipped rectangle *)
+  | SEndCsi 42 => if ch =? 121 then rqcra_c (tm m) (ps m)            (* DECRQCRA *)
+                  else let o := ansi_step m ch in (o, mkCost 1 1 (out_grow (tm m) o))
   | _ => let o := ansi_step m ch in (o, mkCost 1 1 (out_grow (tm m) o))
   end.
+(* the THREADED allocation counter of Model/Alloc.v for the same character (rows + cells allocated; every other state: growth of the state) *)
+Definition last_step_a (m : amach) (ch : Z) : Z :=
+  match st (ps m) with
+  | SCsi is_start => csi_final_a (tm m) (ps m) is_start ch
+  | SEndCsi 32 => csi_sp_a (tm m) (ps m) ch
+  | SEndCsi 36 => csi_dollar_a (tm m) (ps m) ch
+  | SDefault =>
+    if ch =? 10 then caret_lf_a (tm m)
+    else if (ch =? 27) || (ch =? 12) || (ch =? 13) || (ch =? 7) || (ch =? 127) || (((ch =? 8) || (ch =? 0) || (ch =? 255)) && bs_ctrl (ps m))
+         then out_grow (tm m) (ansi_step m ch)
+    else print_char_a (tm m) (print_cell (tm m) ch)
+  | _ => out_grow (tm m) (ansi_step m ch)
+  end.
 
-(* the sequence: every character but the last costs one tick (parameter digits, intermediates, earlier sequences count fully) *)
-Fixpoint feed_cost (m : amach) (cs : list Z) (acc : cost) (t0 : term) : list Z :=
+(* the sequence: every character but the last costs one tick (parameter digits, intermediates, earlier sequences count fully);
+   [ta] accumulates the threaded allocation counter; the vector ends with  ta  scr(t0) *)
+Fixpoint feed_cost (m : amach) (cs : list Z) (acc : cost) (ta : Z) (t0 : term) : list Z :=
   match cs with
-  | [] => obs 0 acc t0 (tm m)
+  | [] => obs 0 acc t0 (tm m) ++ [ta; scr t0]
   | [c] => let '(o, k) := last_step m c in
+           let ta' := ta + last_step_a m c in
            match o with
-           | OOk m1 => obs 0 (cadd acc k) t0 (tm m1)
-           | OErr m1 => obs 1 (cadd acc k) t0 (tm m1)
+           | OOk m1 => obs 0 (cadd acc k) t0 (tm m1) ++ [ta'; scr t0]
+           | OErr m1 => obs 1 (cadd acc k) t0 (tm m1) ++ [ta'; scr t0]
            | OPanic s => [-1; s]
            | ODiverge => [-2]
            end
   | c :: r => let '(o, k) := last_step m c in
               match o with
-              | OOk m1 | OErr m1 => feed_cost m1 r (cadd acc k) t0
+              | OOk m1 | OErr m1 => feed_cost m1 r (cadd acc k) (ta + last_step_a m c) t0
               | OPanic s => [-1; s]
               | ODiverge => [-2]
               end
@@ -62,7 +80,7 @@ Fixpoint feed_cost (m : amach) (cs : list Z) (acc : cost) (t0 : term) : list Z :
 
 Definition run_seq (w h : Z) (prefix seq : list Z) : list Z :=
   match feed (ansi_init 0 false w h) prefix with
-  | inl (Some m) => feed_cost m seq cost0 (tm m)
+  | inl (Some m) => feed_cost m seq cost0 0 (tm m)
   | inl None => [-3]
   | inr l => l
   end.
